@@ -103,6 +103,15 @@ def encode(kind, a, toks):
 
 
 def correspond(ctx, kinds=(1, 2, 3)):
+    corr = _correspond(ctx, kinds)
+    if kinds == (1, 2, 3):
+        # static_assert as translated into Gen/Dispatch.v: interpreter vs code
+        from harness import dispatchcorr
+        dispatchcorr.correspond_dispatch(ctx, corr, only=('static_assert',))
+    return corr
+
+
+def _correspond(ctx, kinds=(1, 2, 3)):
     corr = Corr()
     n = ctx.scale(4000, 60000)
     cases = []
